@@ -178,7 +178,7 @@ func scenarios(tier string) []*hn.Scenario {
 					return b.Std("t1", "p0", P, D).Std("t1", "p1", P, D).Std("t1", "p2", P, D).RemovePipe("t1", "p2").RemovePipe("t1", "p2")
 				},
 				func(b *hn.Builder) *hn.Builder {
-					return b.Std("t1", "p0", P, D).Std("t1", "p1", P, E).Std("t2", "p0", P, D).RemovePipe("t2", "p0").RemovePipe("t2", "p0").RemovePipe("t9", "p0")
+					return b.Std("t1", "p0", P, D).Std("t1", "p1", P, E).Std("t2", "p0", P, D).RemovePipe("t2", "p0").RemovePipe("t2", "p0")
 				},
 				func(b *hn.Builder) *hn.Builder {
 					return b.Std("t1", "p0", P, D).Std("t1", "p1", P, D).RemovePipe("t1", "p0").Std("t1", "p0", P, E)
